@@ -33,7 +33,14 @@ class Annotated(Doc):
         return 'Annotated({})'.format(repr(self.doc))
 
     def normalize(self):
-        return Annotated(normalize_doc(self.doc), self.annotation)
+        inner_normalized = normalize_doc(self.doc)
+        if isinstance(inner_normalized, AlwaysBreak):
+            # Annotations never affect the layout: propagate the
+            # forced break the same way Nest does.
+            return AlwaysBreak(
+                Annotated(inner_normalized.doc, self.annotation)
+            )
+        return Annotated(inner_normalized, self.annotation)
 
 
 class Nil(Doc):
